@@ -15,7 +15,8 @@ var isJavaTestPackage = func(path string) bool {
 }
 
 var JavaTestFileFilter = func(path string) bool {
-        return isJavaTestFile(path) || isJavaTestPackage(path)
+	// a directory below src/test/java/ is not a test file
+	return isJavaTestFile(path) || (isJavaTestPackage(path) && strings.HasSuffix(path, ".java"))
 }
 
 var JavaCodeFileFilter = func(path string) bool {
